@@ -965,6 +965,38 @@ def c12_facts(repo, sk, facts, notes):
 # ===== C12 block end =====
 
 
+# ===== C11 repair block begin (how the map codecs reach the members of an element; add-only, owned by props/c11.py) =====
+def c11f_facts(repo, sk, facts, notes):
+    """the flag of the model Alloc/AllocModel.v (map_copies = not c11_map_elems_in_place): compute_encoded_size and
+    encode of BOTH map codecs (std/Map.h, std/UnorderedMap.h) iterate `for (auto const& elem : arg)` and call
+    Codec<Key> on elem.first, then Codec<T> on elem.second, and nothing in those two functions mentions a std::pair
+    (passing elem to Codec<std::pair<Key, T>> converts it to a temporary pair: Key and T are copied on the caller).
+    The comment-stripped, white-space-normalised text of the four bodies is emitted as well; TieC11.v pins it."""
+    inc = os.path.join(repo, 'include', 'quill', 'std')
+    size_rx = (r'for \(auto const& elem : arg\) \{ '
+               r'total_size \+= Codec<Key>::compute_encoded_size\(conditional_arg_size_cache, elem\.first\); '
+               r'total_size \+= Codec<T>::compute_encoded_size\(conditional_arg_size_cache, elem\.second\); \}')
+    enc_rx = (r'for \(auto const& elem : arg\) \{ '
+              r'Codec<Key>::encode\(buffer, conditional_arg_size_cache, conditional_arg_size_cache_index, elem\.first\); '
+              r'Codec<T>::encode\(buffer, conditional_arg_size_cache, conditional_arg_size_cache_index, elem\.second\); \}')
+    ok = True; texts = []
+    for h in ('Map.h', 'UnorderedMap.h'):
+        try:
+            txt = open(os.path.join(inc, h)).read()
+        except OSError:
+            ok = False; texts += ['', '']; continue
+        bodies = _c11_fn_bodies(txt, ['compute_encoded_size', 'encode'])
+        for name, rx in (('compute_encoded_size', size_rx), ('encode', enc_rx)):
+            b = [x for n, x in bodies if n == name]
+            if len(b) != 1:
+                ok = False; texts.append(''); continue
+            b = b[0]; texts.append(b)
+            ok = ok and len(re.findall(rx, b)) == 1 and 'pair' not in b and len(re.findall(r'\belem\b', b)) == 3
+    facts['c11_map_elems_in_place'] = bool(ok)
+    sk['c11_map_codec_bodies'] = texts
+# ===== C11 repair block end =====
+
+
 def main():
     repo = REPO; out = os.path.join(os.path.dirname(os.path.abspath(__file__)), '..', 'coq', 'gen', 'SrcFacts.v')
     a = sys.argv[1:]
@@ -983,6 +1015,7 @@ def main():
     c19_facts(repo, sk, facts, notes)   # C19 block
     c12_facts(repo, sk, facts, notes)   # C12 block
     reg_facts(repo, sk, facts, notes)   # C03 block
+    c11f_facts(repo, sk, facts, notes)   # C11 repair block
     txt = emit(sk, facts, notes, os.path.normpath(out))
     if dump:
         for k in sorted(sk):
